@@ -127,8 +127,17 @@ def run(chk, tier, overlays=()):
     # FRAME in the two routines
     chk.rule("FRAME", "monogram frame adjacency and point-difference naming (p_XY = p(Y) - p(X)) at every parseable site of the two reaction-force routines")
     n_ok = 0
+    # the two routines and the file-local (non-member) helpers they call: a shift extracted into `static SpatialVec shiftTo..(..)` is still theirs
+    mine = set()
+    for g in P.all_fns():
+        if g.name.split("::")[-1] in FUNCS:
+            mine.add(g.id)
+            for _, _, q in g.calls():
+                for h_ in P.by_id.get(q.get("fid"), []):
+                    if h_.blocks and not h_.cls and h_.file == g.file:
+                        mine.add(h_.id)
     for fn, e, kind, st, det in frame.scan(P, lambda f: True):
-        if fn.name.split("::")[-1] not in FUNCS:
+        if fn.id not in mine:
             continue
         key = "%s:%s:%s" % (fn.name.split("::")[-1], kind, (e.get("var") if kind in ("decl", "vecdecl", "diffdecl", "aliasdecl") else sx_str(e["x"])[:50]))
         site = "%s:%d" % (fn.file, e["line"])
@@ -137,7 +146,7 @@ def run(chk, tier, overlays=()):
             chk.ok("FRAME", key, site, det)
         elif st == "bad":
             chk.violation("FRAME", key, site, det)
-    chk.floor("FRAME", 4)
+    chk.floor("FRAME", 3)     # (two point differences + the shift product, which the routines may share through a helper)
     chk.floor("COVER", 6)
     chk.floor("PAIRIDX", 5)
     chk.floor("SWEEP", 5)
